@@ -73,8 +73,14 @@ def gen_client(rng: random.Random, mode: str, n_ops: int, defs=None):
                 ops.append({"op": "add_type", "name": rng.choice(["Alias1", "Shared", "uint8", "TT"]), "target": rng.choice(["uint16", names[0], "Alias1", "nope"])})
             elif r < 0.96:
                 ops.append({"op": "resolve", "name": rng.choice(["X1", "X2", "Shared", "Good1", "TT", "Alias1", "KK", "S1", "S2", "E1", "N1"])})
-            else:
+            elif r < 0.98:
                 ops.append({"op": "eval", "expr": rng.choice(["KK + 1", "N1 * 2", "sizeof(Shared)", "1 +", "M2 | 4", "3 / 0"])})
+            else:
+                anon = [m[0] for e in defs["enums"] if e["name"] is None for m in e["members"]]
+                if anon:
+                    ops.append({"op": "const_dump", "name": rng.choice(anon), "seed": rng.getrandbits(16)})
+                else:
+                    ops.append({"op": "dump", "h": h})
         else:  # C17
             if r < 0.10:
                 ops.append({"op": "default", "t": t})
@@ -85,6 +91,12 @@ def gen_client(rng: random.Random, mode: str, n_ops: int, defs=None):
                 ops.append({"op": "reparse", "k": rng.randrange(n_parse)})
             elif r < 0.50:
                 ops.append(gen_mutation(rng, defs, paths, h))
+            elif r < 0.535:
+                m = gen_mutation(rng, defs, paths, h, simple=True)
+                if m["op"] == "set" and len(m["path"]) >= 2:
+                    ops.append({"op": "twin_mutate", "t": m["t"], "path": m["path"], "val": m["val"], "seed": rng.getrandbits(30)})
+                else:
+                    ops.append({"op": "zero_vs_default", "t": t})
             elif r < 0.555:
                 ops.append({"op": "zero_vs_default", "t": t})
             elif r < 0.59:
@@ -161,6 +173,10 @@ def gen_construct(rng, defs, t):
             args.append(val)
         elif val is not None and rng.random() < 0.5:
             kw[f["name"]] = val
+    if len(args) == 1 and not kw and args[0]["k"] in ("bytes", "str"):
+        # T(b"x") with a single bytes-like argument means "parse these bytes" (documented call form), not construction
+        kw = {sd["fields"][0]["name"]: args[0]}
+        args = []
     return {"op": "construct", "t": t, "args": args, "kw": kw}
 
 
@@ -460,6 +476,47 @@ def exec_op(cl: Client, op, stats, mode, peers=None):
             elif ha[0] != hb[0]:
                 raise Violation("c17_hash", "hashability_differs_between_equal_instances", f"{ha} {hb}")
         return got
+    if k == "const_dump":
+        # members of an anonymous enum are constants of THIS cstruct object: their encoding follows its endianness
+        def f():
+            m = getattr(cs, op["name"])
+            t = type(m)
+            raw = gen.gen_bytes(random.Random(op["seed"]), t.size or 1)
+            return ["val", m.dumps().hex(), int(t(raw).value), cs.endian]
+        return _outcome(f)
+    if k == "twin_mutate":
+        # two equal instances (same bytes parsed twice), hashed, then changed in place in the same way through a nested
+        # structure: they must still be equal and hash equally
+        t = getattr(cs, op["t"], None)
+        if t is None or _has_union(t):
+            return ["skip"]
+
+        def f():
+            data = gen.gen_bytes(random.Random(op["seed"]), 96)
+            a, b = t(data), t(data)
+            cl.handles.append(a)
+            cl.handles.append(b)
+            try:
+                ha0 = hash(a)  # only ONE of the two is hashed before the change (sets, dict keys): a remembered hash shows
+            except TypeError:
+                ha0 = None
+            val = gen.make_value(cs, op["val"])
+            for x in (a, b):
+                setattr(_navigate(x, op["path"][:-1]), op["path"][-1], val)
+            try:
+                same = _plain(a) == _plain(b)
+            except ValueError:
+                return ["skip"]
+            stats.count("probe.twin_mutate_done")
+            if same and (not (a == b) or (a != b)):
+                raise Violation("c17_eq", "equal_after_same_nested_mutation_but_not_eq", f"{op['t']}: {observe(a, sizes=False)}")
+            if same and ha0 is not None and hash(a) != hash(b):
+                raise Violation("c17_hash", "equal_instances_hash_differently", f"{op['t']} after the same nested assignment {op['path']} on both: {observe(a, sizes=False)}")
+            c = t(data)
+            if same and ha0 is not None and _plain(c) != _plain(a) and hash(a) == ha0 and hash(c) == ha0 and (a == c):
+                raise Violation("c17_eq", "changed_instance_still_equal_to_original", f"{op['t']}")
+            return ["ok"]
+        return _outcome(f)
     if k == "zero_vs_default":
         # "unspecified fields take the type's zero value": a default instance of a fixed-size structure and the parse of
         # all-zero bytes are the same value - equal observations, ==, and equal hashes
